@@ -17,6 +17,9 @@ def one(d):
     name = os.path.basename(d.rstrip("/"))
     meta = json.load(open(d + "meta.json"))
     prop = meta["property"]
+    if meta.get("disposition", "").startswith("not judged"):
+        return name, prop, "not-judged", meta["disposition"][:120]
+    checks = meta.get("regress_checks") or [prop]  # a change may be reported by the check of a neighbouring property instead
     wt = tempfile.mkdtemp(prefix="wt_regress_"); os.rmdir(wt)
     subprocess.run(["git", "-C", "/repo", "worktree", "add", "-q", "--detach", wt, "HEAD"], check=True)
     try:
@@ -24,9 +27,15 @@ def one(d):
         if ap.returncode != 0:
             return name, prop, "patch-does-not-apply", ap.stderr[-200:]
         env = dict(os.environ, VERIF_REPO=wt, VERIF_EVIDENCE_DIR=os.path.join(wt, ".ev"), VERIF_OUT_DIR=os.path.join(wt, ".out"))
-        p = subprocess.run(["/verif/run_check.py", prop, "--tier", tier], cwd="/verif", env=env, capture_output=True, text=True, timeout=7200)
-        sigs = [l.strip()[11:] for l in p.stdout.splitlines() if l.strip().startswith("signature:")]
-        return name, prop, {1: "detected", 0: "MISSED"}.get(p.returncode, f"exit={p.returncode}"), "; ".join(sigs[:3])[:200]
+        verdict, info = "MISSED", ""
+        for c in checks:
+            p = subprocess.run(["/verif/run_check.py", c, "--tier", tier], cwd="/verif", env=env, capture_output=True, text=True, timeout=7200)
+            sigs = [l.strip()[11:] for l in p.stdout.splitlines() if l.strip().startswith("signature:")]
+            if p.returncode == 1:
+                return name, prop, "detected", (f"[{c}] " if c != prop else "") + "; ".join(sigs[:3])[:200]
+            if p.returncode != 0:
+                verdict, info = f"exit={p.returncode}", c
+        return name, prop, verdict, info
     finally:
         subprocess.run(["git", "-C", "/repo", "worktree", "remove", "--force", wt])
 
@@ -35,6 +44,6 @@ bad = 0
 with cf.ThreadPoolExecutor(int(os.environ.get("JOBS", "3"))) as ex:
     for name, prop, verdict, info in ex.map(one, seeds):
         print(f"{name:55s} {prop} {verdict:10s} {info}")
-        bad += verdict != "detected"
+        bad += verdict not in ("detected", "not-judged")
 subprocess.run(["git", "-C", "/repo", "worktree", "prune"])
 sys.exit(1 if bad else 0)
